@@ -150,6 +150,15 @@ func (p *proxyConn) handleMITM(req *http.Request) error {
 	// Successful CONNECT response does not invoke trace.
 	p.traceWroteResponse(res, nil)
 
+	// Waiting for the first byte of the intercepted session is an idle wait.
+	var idleDeadline time.Time // or zero if none
+	if d := p.idleTimeout(); d > 0 {
+		idleDeadline = time.Now().Add(d)
+	}
+	if deadlineErr := p.conn.SetReadDeadline(idleDeadline); deadlineErr != nil {
+		log.Error(ctx, "can't set idle deadline", "error", deadlineErr)
+	}
+
 	b, err := p.brw.Peek(1)
 	if err != nil {
 		if isClosedConnError(err) {
@@ -158,6 +167,11 @@ func (p *proxyConn) handleMITM(req *http.Request) error {
 			log.Error(ctx, "mitm: failed to peek connection", "host", req.Host, "error", err)
 		}
 		return errClose
+	}
+
+	// The handshake and the requests of the session have their own limits.
+	if deadlineErr := p.conn.SetReadDeadline(time.Time{}); deadlineErr != nil {
+		log.Error(ctx, "can't clear idle deadline", "error", deadlineErr)
 	}
 
 	// Drain the rest of the buffered data.
